@@ -1902,6 +1902,12 @@ def c15_programs(tier, sd):
             for nv, mv in ((1, 1), (0, 5), (7, 0)):
                 ops += [["set", ["top", "n"], nv], ["set", ["top", "m"], mv], ["randomize", ["top"]], ["randomize_with", ["top"], [E(["<", b, lit(200)])]]]
             out.append({"tag": "dist", "desc": "dist %s with %s" % (d, o), "prog": pr, "world": [["top", "obj", "Top"]], "ops": ops})
+    # the dist field's rand set is merged with others by later statements (in every statement order)
+    for o in ([E(["<", b, F("c")]), E(["<", a, b])], [E(["<", a, b]), E(["<", b, F("c")])], [E(["!=", F("c"), lit(0)]), E(["<", b, F("c")]), E(["<=", a, b])]):
+        for first in (True, False):
+            st = ([["dist", a, dists[0]]] + o) if first else (o + [["dist", a, dists[0]]])
+            out.append({"tag": "dist_merge", "desc": "dist field in a rand set merged by later statements %s" % (st,), "prog": one_class(fields, st), "world": [["top", "obj", "Top"]],
+                        "ops": [["set", ["top", "n"], 1], ["set", ["top", "m"], 1], ["randomize", ["top"]], ["randomize", ["top"]]]})
     # seeded random weight lists and accompanying constraints
     for i in range(20 if tier == "quick" else 1200):
         ent = []
